@@ -29,6 +29,10 @@ def run(ctx) -> None:
     ctx.guard("C20.guard-table", guard_table)
     ctx.guard("C20.parallel", parallel)
     ctx.guard("C20.history-init", history_init)
+    from .common import memo_rule
+
+    # a cached validation helper: equal-but-differently-typed sizes (2.0 after 2) skip the refusal; cached builders share state
+    ctx.guard("C20.guard-table", memo_rule, "C20.guard-table/no-cache", ("liquidhandling/labware.py", "liquidhandling/composition.py"))
     from . import c04, c05, c08
 
     ctx.reuse("C20.parallel", c08.grid_construction)
